@@ -98,6 +98,19 @@ def post_explore(ctx, res, pids, opts):
                 diff = {x: (f_impl.get(x), f_text.get(x)) for x in set(f_impl) | set(f_text) if f_impl.get(x) != f_text.get(x)}
                 rep("flat_action_fields_differ_from_scenario_definition", {"index": i, "action": str(k), "impl_vs_text": diff})
                 break
+    # ------------------------------------------------------------------ (1b) ... and still are after heavy use:
+    # ctx.env executed every (state, action, draw) of the state graph (incl. re-exploits of compromised hosts)
+    used = list(ctx.env.action_space.actions)
+    for i, a in enumerate(used):
+        k = (CLASS_TO_TYPE[type(a).__name__], a.name, (int(a.target[0]), int(a.target[1])))
+        if k in want_keys and action_fields(a) != model_fields(want_keys[k]):
+            f_impl, f_text = action_fields(a), model_fields(want_keys[k])
+            diff = {x: (f_impl.get(x), f_text.get(x)) for x in set(f_impl) | set(f_text) if f_impl.get(x) != f_text.get(x)}
+            rep("flat_action_definition_changed_while_the_environment_was_used",
+                {"index": i, "action": str(k), "impl_vs_text": diff})
+            break
+    if fingerprint_actions(env) != fingerprint_actions(ctx.env):
+        rep("index_to_action_mapping_differs_between_a_used_and_a_fresh_environment", {})
     # ------------------------------------------------------------------ (2) same mapping for every env (in-process)
     env_b = NASimEnv(ctx.scenario, fully_obs=True, flat_actions=True, flat_obs=False)
     if fingerprint_actions(env) != fingerprint_actions(env_b):
